@@ -8,18 +8,22 @@
 //     frames, status 503 messages (header Status: 503; routed by the subject token), and messages
 //     the inbound path must discard before dispatch (other status codes, 503 with a non-numeric
 //     token, frames without parsable headers / op id).
+//
 // The yield points are the ones the adapter mode uses (request.registered, request.got,
 // request.timeout in nats_transport.go; dispatch.* in registry.go).
 //
 // additional request fields: "transport":"nats", (timeouts_ms: a negative entry = SetTimeout(0)) "sizes":[len(data) per caller; 0 = 8 bytes],
-//   "share":[per caller: index of an earlier caller whose FContext (op id) it reuses, or -1],
-//   "badop":[per caller: 1 = its FContext carries a malformed _opid header],
-//   "reserve":k (the last k callers are started only after the transport has been closed),
-//   "profile": "mixed" | "wedge" | "timeouts" | "noresp" | "puberr" | "status"
+//
+//	"share":[per caller: index of an earlier caller whose FContext (op id) it reuses, or -1],
+//	"badop":[per caller: 1 = its FContext carries a malformed _opid header],
+//	"reserve":k (the last k callers are started only after the transport has been closed),
+//	"profile": "mixed" | "wedge" | "timeouts" | "noresp" | "puberr" | "status"
+//
 // additional event kinds / effects: see Judge/JRegistry.v.
 package main
 
 import (
+	"bytes"
 	"encoding/binary"
 	"fmt"
 	"math/rand"
@@ -359,7 +363,12 @@ func runNats(q req) resp {
 			m.Data = f[:9]
 		case 4: // frame whose _opid is not a number
 			f := frameFor(target, 424242)
-			m.Data = []byte(strings.Replace(string(f), strconv.FormatUint(target, 10), strings.Repeat("x", len(strconv.FormatUint(target, 10))), 1))
+			// the value of the real "_opid" pair (the frame may carry look-alike headers, see frameFor)
+			if at := bytes.Index(f, []byte("\x00\x00\x00\x05_opid")); at >= 0 {
+				n := len(strconv.FormatUint(target, 10))
+				copy(f[at+13:], strings.Repeat("x", n))
+			}
+			m.Data = f
 		case 5: // unsupported protocol version
 			f := frameFor(target, 424242)
 			f[4] = 1
